@@ -162,6 +162,9 @@ class PropertyCall:
         self.q, self.o = q, o
 
 
+SPEC_NAMES = {'TXT', 'ALL', 'SAME_ITEMS', 'ITEM', 'IDX'}
+
+
 class Unbound:
     def __repr__(self):
         return '<unbound>'
@@ -207,7 +210,7 @@ def exc_isinstance(name, handler_names):
 # ----------------------------------------------------------------------------------- state
 
 class State:
-    __slots__ = ('env', 'pc', 'objs', 'lists', 'ghost', 'trace', 'counter', 'farr', 'notes')
+    __slots__ = ('env', 'pc', 'objs', 'lists', 'ghost', 'trace', 'counter', 'farr', 'notes', 'segs_')
 
     def __init__(self):
         self.env = {}
@@ -219,6 +222,7 @@ class State:
         self.counter = None
         self.farr = {}     # heap field arrays (Int -> sort), for anonymous token objects
         self.notes = []
+        self.segs_ = {}    # opaque list segments (pyvc.heap)
 
     def fork(self):
         s = State()
@@ -231,6 +235,7 @@ class State:
         s.counter = self.counter
         s.farr = dict(self.farr)
         s.notes = list(self.notes)
+        s.segs_ = {k: dict(v, uni=dict(v['uni'])) for k, v in self.segs_.items()}
         return s
 
     def assume(self, z):
@@ -571,6 +576,8 @@ class Exec:
             return [(st, v)]
         if n in st.ghost:
             return [(st, st.ghost[n])]
+        if getattr(self, '_in_spec', False) and n in SPEC_NAMES:
+            return [(st, Func('spec.' + n))]
         if n in self.genv:
             return [(st, self.lift_global(self.genv[n], n))]
         import builtins
@@ -800,6 +807,12 @@ class Exec:
             if m is not None:
                 return m
             raise PyExc('AttributeError', '%s.%s' % (o.kind, name))
+        if isinstance(o, Opaque) and o.name == 'super':
+            mro = list(o.data['cls'].__mro__)
+            for k in mro[mro.index(o.data['cls']) + 1:]:
+                if name in vars(k):
+                    return Func('%s.%s.%s' % (k.__module__, k.__qualname__, name), self_val=o.data['self'])
+            raise PyExc('AttributeError', 'super().' + name)
         if isinstance(o, (SStr, str)):
             return Func('str.' + name, self_val=o)
         if isinstance(o, LRef):
@@ -952,9 +965,14 @@ class Exec:
         if getattr(self, '_in_spec', False) and isinstance(node.func, ast.Name) and node.func.id in ('old', 'entry'):
             base = self._old_state if node.func.id == 'old' else self._entry_state
             tmp = base.fork()
+            n0 = len(tmp.pc)
             r = self.eval(node.args[0], tmp)
             if len(r) != 1:
                 raise OutsideSubset('forking old()')
+            # facts established while evaluating in the old state (instances of ghost-function laws, conditions
+            # entailed by the old path condition) remain true: keep them as hypotheses
+            for c in r[0][0].pc[n0:]:
+                st.assume(c)
             return [(st, r[0][1])]
         out = []
         for s, f in self.eval(node.func, st):
@@ -1230,6 +1248,11 @@ class Exec:
             if s1.lists.keys() != s2.lists.keys() or any(s1.lists[k] is not s2.lists[k] for k in s1.lists):
                 return None
             if s1.farr.keys() != s2.farr.keys() or any(s1.farr[k] is not s2.farr[k] for k in s1.farr):
+                return None
+            if s1.segs_.keys() != s2.segs_.keys() or any(
+                    s1.segs_[k]['uni'].keys() != s2.segs_[k]['uni'].keys()
+                    or any(s1.segs_[k]['uni'][f] is not s2.segs_[k]['uni'][f] for f in s1.segs_[k]['uni'])
+                    for k in s1.segs_):
                 return None
             m = s1.fork()
             m.pc = s1.pc[:base_len] + [z3.Or(c1, c2)]
